@@ -1,9 +1,41 @@
-//! STUB component for rsdp -- to be written
+//! component 30: RSDP.  Case vocabulary documented in coq/theories/Spec/RsdpS.v.
 use crate::sx::*;
+use crate::tcommon::*;
 use crate::Emit;
+use acpi_tables::rsdp::Rsdp;
 
-pub fn run(_case: &Sx, _out: &mut Vec<Ev>) {
-    panic!("harness: component rsdp not implemented")
+pub fn run(case: &Sx, out: &mut Vec<Ev>) {
+    let c = case.list();
+    let ctor = c[0].list();
+    let t = Rsdp::new(ctor[0].arr::<6>(), ctor[1].num());
+    for op in &c[1..] {
+        if let Sx::A(_) = op {
+            out.push(image(&t));
+            continue;
+        }
+        panic!("harness: RSDP has no operation");
+    }
 }
 
-pub fn gen(_tier: &str, _rng: &mut Rng, _emit: &mut Emit) {}
+fn rand_oem(rng: &mut Rng) -> Vec<u8> {
+    match rng.below(4) {
+        0 => vec![0; 6],
+        1 => vec![0xff; 6],
+        2 => b"CHYPER".to_vec(),
+        _ => rng.bytes(6),
+    }
+}
+
+pub fn gen(tier: &str, rng: &mut Rng, emit: &mut Emit) {
+    for x in [0u64, 1, 0xff, 0x100, 0xdead_beef, u64::MAX, u64::MAX - 1, 0x0102_0304_0506_0708] {
+        for oem in [vec![0u8; 6], vec![0xff; 6], b"CHYPER".to_vec()] {
+            emit.case(30, history(rng, l(vec![blist(&oem), a(x)]), vec![]));
+        }
+    }
+    let n = if tier == "thorough" { 3000 } else { 300 };
+    for _ in 0..n {
+        let oem = rand_oem(rng);
+        let c = l(vec![blist(&oem), a(rng.val(64))]);
+        emit.case(30, history(rng, c, vec![]));
+    }
+}
